@@ -138,6 +138,13 @@ pub enum Surgery {
     /// nesting is within the library's limit while the number of nested applications is
     /// `records ^ depth`.
     InstallContextFanout { glyph: u16, records: u16, depth: u8, variant: u64 },
+    /// CFF2 font without subroutines (every CFF2 font of the corpus): move the programs of
+    /// `glyphs` into a new local subroutine INDEX (appended to the table together with a copy of
+    /// the Private DICT that names it and a new CharStrings INDEX; the Font DICT and Top DICT
+    /// operands are patched in place) and replace each program by a call - directly, or (`nest`
+    /// > 0) through that many levels of forwarding subroutines. The font stays well-formed and
+    /// draws the same outlines; real CFF2 fonts are nearly always subroutinised.
+    InstallCff2Subrs { glyphs: Vec<u16>, nest: u8 },
     /// Re-pack `hmtx` with only `num_h_metrics` long metrics (glyphs after that take the last
     /// advance and keep their side bearing) and update `hhea`. Every corpus CFF2 font and most
     /// others have numberOfHMetrics == numGlyphs, which hides the compact form from the writers.
